@@ -227,7 +227,8 @@ pub fn run_validate13(schema: &s::Document, doc: &q::Document, codes: &[String])
             "locations": e.locations.iter().map(|p| serde_json::json!({"line": p.line, "column": p.column})).collect::<Vec<_>>(),
             "message": e.message,
         });
-        v == expect && serde_json::to_string(e).unwrap().starts_with("{\"locations\":")
+        // same JSON object (member order inside an object carries no meaning); the text must parse back to it
+        v == expect && serde_json::from_str::<serde_json::Value>(&serde_json::to_string(e).unwrap()).ok() == Some(expect.clone())
     });
     out.push(format!("JSON {}", if json_ok { "ok" } else { "BAD" }));
     let dp: Vec<&str> = default_rules_validation_plan().rules.iter().map(|r| r.error_code()).collect();
